@@ -93,6 +93,21 @@ let show_list f l = "(" ^ String.concat " " (List.map f l) ^ ")"
 let show_opt f = function None -> "none" | Some x -> "(some " ^ f x ^ ")"
 let show_bool b = if b then "true" else "false"
 
+(* numbers up to 2^64 arrive as decimal strings *)
+let n_of_decimal (s : string) : n =
+  let acc = ref N0 in
+  String.iter (fun c -> acc := BinNat.N.add (BinNat.N.mul !acc (n_of_int 10)) (n_of_int (Char.code c - 48))) s;
+  !acc
+let rec decimal_of_n (x : n) : string =
+  if x = N0 then "0" else begin
+    let rec go x acc = if x = N0 then acc else
+        let q = BinNat.N.div x (n_of_int 10) and r = BinNat.N.modulo x (n_of_int 10) in
+        go q (string_of_int (int_of_n r) ^ acc) in
+    go x ""
+  end
+let big_of_sexp = function A a -> n_of_decimal a | _ -> failwith "number expected"
+
+
 (* ---------- oracle ---------- *)
 let oracle (name : string) (args : n list list) : n list option =
   print_string ("? " ^ name);
